@@ -339,7 +339,17 @@ class CallGen:
             outs = [(x, f["ret"]), (out, g["ret"])]
         else:  # arg_call: f(g(a))
             g = ch.choice(pool, "g")
+            if ch.chance(1, 2, "unconverted-forward"):
+                # g's result is passed on without any conversion to a routine that reads its parameter again after a
+                # call of its own (the by-name splice of the argument then meets the inner call's ret_val)
+                rereaders = [f for f in pool if len(f["params"]) == 1 and (f.get("kind") == "nested" or f["name"] == "fbrev")]
+                if rereaders:
+                    f0 = ch.choice(rereaders, "rereader")
+                    same = [x for x in pool if x["ret"] == f0["params"][0][0]]
+                    if same:
+                        g = ch.choice(same, "g-same-type")
             cands = [f for f in pool if len(f["params"]) == 1 and not (self.cfg == "A" and f5a(g["ret"], f["params"][0][0]))]
+            cands = cands + [f for f in cands if f.get("kind") == "nested" or f["name"] == "fbrev"] * 3
             if not cands:
                 cands = [g] if len(g["params"]) == 1 else [dict(cref.BUNDLED["clz32"], name="clz32")]
             f = ch.choice(cands, "f")
